@@ -131,8 +131,16 @@ def erf_case(ctx, PL, rng, name, tier):
         d = int(rng.integers(60, 151)); d += (par - d) % 2
         args["degree"] = d
         args["cheb_samples"] = 2 * d + 2
-    N = int(args["cheb_samples"])
     n = int(args["degree"])
+    # the clause holds for every cheb_samples >= degree + 1: include the boundary and the default
+    mode = rng.random()
+    if mode < 0.3:
+        args["cheb_samples"] = n + 1
+    elif mode < 0.4:
+        args["cheb_samples"] = n + 2
+    elif mode < 0.5 and n <= 19:
+        args.pop("cheb_samples", None)            # library default (20)
+    N = int(args.get("cheb_samples", 20))
     th = math.pi * (2 * np.arange(N) + 1) / (2 * N)
     x = np.cos(th)
     y = np.array([float(target(name, args)(xi)) for xi in x])
